@@ -15,6 +15,12 @@
 //!        -> mx=<u32> ini=<ns> max=<ns> mul=<bits> jit=<0|1>
 //!   cdn st=<status[:retry-after hex],…>
 //!        -> reqs=<n> res=<tok>
+//!   pu bits=<32|64> s=<str>      -> v=<n>|v=none      (`str::parse::<u32|u64>`, the parser of from_env)
+//!   f64 s=<str>                  -> acc=<0|1>         (`str::parse::<f64>().is_ok()`)
+//!   sleep d=<ns> fits=<0|1>      -> ms=<whole ms, capped>   (`tokio::time::sleep(d)` under the paused
+//!        clock; fits = `Instant::now().checked_add(d).is_some()`)
+//! For jit=0 the model answers an `exec` line twice: with the hand-written loop and with the loop
+//! assembled from the pieces lib/rs2lean_retry.py read in retry.rs (`source-shape-differs` if not equal).
 //! Outcome tokens: O<v> Ok(v); T Timeout; U ServiceUnavailable; W<id> Network; V<code> ServerError;
 //!   H<code> HttpStatus; L- / L<ns> RateLimited{None / Some(ns)}; P<id> Parse; X<id> Other;
 //!   A AllHostsFailed; K InvalidKey; E<id> InvalidEndpoint; G RangeNotSupported; M<id>
@@ -754,6 +760,111 @@ fn do_cdn_batch(s: &mut Session, cases: Vec<Vec<CdnStep>>) {
     }
 }
 
+
+// ---------------------------------------------------------------- library parsers, timer clamp
+
+/// O's own reading of "an unsigned decimal number of the documented type": optional single `+`,
+/// one or more ASCII digits, value below 2^bits. Independent of `str::parse`.
+fn oracle_unsigned(bits: u32, s: &str) -> Option<u128> {
+    let body = s.strip_prefix('+').unwrap_or(s);
+    if body.is_empty() || !body.bytes().all(|b| b.is_ascii_digit()) {
+        return None;
+    }
+    let mut v: u128 = 0;
+    for b in body.bytes() {
+        v = v.checked_mul(10)?.checked_add((b - b'0') as u128)?;
+        if v >> bits != 0 {
+            return None;
+        }
+    }
+    Some(v)
+}
+
+/// O's own reading of the decimal floating point grammar (Rust reference, `f64::from_str`).
+fn oracle_f64_grammar(s: &str) -> bool {
+    let b = s.as_bytes();
+    let b = match b.first() {
+        Some(b'+') | Some(b'-') => &b[1..],
+        _ => b,
+    };
+    if b.is_empty() {
+        return false;
+    }
+    let lower: Vec<u8> = b.iter().map(|c| c.to_ascii_lowercase()).collect();
+    if lower == b"inf" || lower == b"infinity" || lower == b"nan" {
+        return true;
+    }
+    let mut i = 0;
+    let mut digits = 0;
+    while i < b.len() && b[i].is_ascii_digit() { i += 1; digits += 1; }
+    if i < b.len() && b[i] == b'.' {
+        i += 1;
+        while i < b.len() && b[i].is_ascii_digit() { i += 1; digits += 1; }
+    }
+    if digits == 0 {
+        return false;
+    }
+    if i == b.len() {
+        return true;
+    }
+    if b[i] != b'e' && b[i] != b'E' {
+        return false;
+    }
+    i += 1;
+    if i < b.len() && (b[i] == b'+' || b[i] == b'-') { i += 1; }
+    i < b.len() && b[i..].iter().all(|c| c.is_ascii_digit())
+}
+
+fn do_pu(s: &mut Session, bits: u32, v: &str) {
+    let req = format!("pu bits={bits} s={}", hex(v.as_bytes()));
+    let got: Option<u128> = if bits == 32 { v.parse::<u32>().ok().map(u128::from) } else { v.parse::<u64>().ok().map(u128::from) };
+    s.line(&req, &got.map_or("v=none".to_string(), |n| format!("v={n}")));
+    s.case(if got.is_some() || !v.is_empty() { Some(&req) } else { None });
+    s.tally(if got.is_some() { "pu.accepted" } else { "pu.rejected" });
+    let want = oracle_unsigned(bits, v);
+    if got != want {
+        let sig = if got.is_some() { "int-grammar:accepts-undocumented" } else { "int-grammar:rejects-documented" };
+        s.oracle_fail(sig, &format!("parse::<u{bits}>({v:?}) = {got:?}, documented reading {want:?}"), &[req]);
+    }
+}
+
+fn do_f64(s: &mut Session, v: &str) {
+    let req = format!("f64 s={}", hex(v.as_bytes()));
+    let got = v.parse::<f64>().is_ok();
+    s.line(&req, &format!("acc={}", got as u8));
+    s.case(Some(&req));
+    s.tally(if got { "f64.accepted" } else { "f64.rejected" });
+    if got != oracle_f64_grammar(v) {
+        let sig = if got { "f64-grammar:accepts-undocumented" } else { "f64-grammar:rejects-documented" };
+        s.oracle_fail(sig, &format!("parse::<f64>({v:?}).is_ok() = {got}"), &[req]);
+    }
+}
+
+/// `tokio::time::sleep(d)` under the paused clock: how long the virtual clock moved.
+fn do_sleep(s: &mut Session, rt: &mut Runtime, d: u128) {
+    let du = dur(d);
+    let (fits, gap) = rt.block_on(async {
+        let t0 = Instant::now();
+        let fits = t0.into_std().checked_add(du).is_some();
+        tokio::time::sleep(du).await;
+        (fits, (Instant::now() - t0).as_nanos())
+    });
+    let req = format!("sleep d={d} fits={}", fits as u8);
+    s.line(&req, &format!("ms={}", ceil_ms(gap.min(CAP_NS))));
+    s.case(Some(&req));
+    s.tally(if !fits { "sleep.instant-overflow" } else if d > CAP_NS { "sleep.above-clamp" } else { "sleep.below-clamp" });
+    // O: the property's "never waits forever" needs every single sleep to end: a sleep that does
+    // not fit the clock is cut to the 30-year clamp, any other lasts its duration (whole ms, up)
+    let want = if fits { d.div_ceil(MS) * MS } else { CAP_NS };
+    if gap != want {
+        s.oracle_fail("sleep-clamp", &format!("sleep({d} ns) moved the paused clock by {gap} ns, expected {want} ns: {req}"), &[req.clone()]);
+    }
+}
+
+fn parse_kv<'a>(toks: &[&'a str], k: &str) -> Option<&'a str> {
+    toks.iter().find_map(|t| t.strip_prefix(k))
+}
+
 // ---------------------------------------------------------------- generators
 
 /// all outcome sequences, cut after the deciding outcome, over the 4 classes of the quantifier:
@@ -915,6 +1026,28 @@ fn replay_line(s: &mut Session, rt: &mut Runtime, line: &str) -> String {
                 return "cdn".into();
             }
         }
+        Some("pu") => {
+            let bits = parse_kv(&toks[1..], "bits=").and_then(|b| b.parse::<u32>().ok()).filter(|b| *b == 32 || *b == 64);
+            let v = parse_kv(&toks[1..], "s=").and_then(parse_env_tok);
+            if let (Some(bits), Some(EnvVal::Str(v)), 3) = (bits, v, toks.len()) {
+                do_pu(s, bits, &v);
+                return "pu".into();
+            }
+        }
+        Some("f64") => {
+            if let (Some(EnvVal::Str(v)), 2) = (parse_kv(&toks[1..], "s=").and_then(parse_env_tok), toks.len()) {
+                do_f64(s, &v);
+                return "f64".into();
+            }
+        }
+        Some("sleep") => {
+            // `fits` is re-measured (it depends on this process's clock)
+            let d = parse_kv(&toks[1..], "d=").and_then(|d| d.parse::<u128>().ok()).filter(|d| *d <= DUR_MAX_NS);
+            if let (Some(d), 3) = (d, toks.len()) {
+                do_sleep(s, rt, d);
+                return "sleep".into();
+            }
+        }
         _ => {}
     }
     s.line(line, "bad-op");
@@ -925,7 +1058,7 @@ fn main() {
     let args = Args::parse();
     quiet_panics();
     let mut s = Session::new(&args.out);
-    s.rule = "exec: RetryPolicy::execute under tokio's paused clock on scripted outcome sequences — every sequence (cut after the deciding outcome) over {Ok, retryable, rate-limited without/with hint, non-retryable} up to length max_attempts+2 for max_attempts 0..=4 (thorough 0..=5, quick samples 5; with jitter quick takes every 4th sequence for max_attempts >= 3) x (initial,max) grid incl. initial>max, equal, zero, sub-ms, max beyond f64 seconds x multipliers {0,.5,1,1.5,2,10,1e300,NaN,-1,+-inf,-0,+-1e-300} x jitter on/off, plus random policies/sequences over all 16 error kinds and huge hints; env: from_env on string pools around every parser boundary; cdn: status scripts against a loopback mock. non-trivial = first outcome is an error (the loop took a retry/stop decision) / at least one variable set / any cdn case; distinct = canonical request text without observations".into();
+    s.rule = "exec: RetryPolicy::execute under tokio's paused clock on scripted outcome sequences — every sequence (cut after the deciding outcome) over {Ok, retryable, rate-limited without/with hint, non-retryable} up to length max_attempts+2 for max_attempts 0..=4 (thorough 0..=5, quick samples 5; with jitter quick takes every 4th sequence for max_attempts >= 3) x (initial,max) grid incl. initial>max, equal, zero, sub-ms, max beyond f64 seconds x multipliers {0,.5,1,1.5,2,10,1e300,NaN,-1,+-inf,-0,+-1e-300} x jitter on/off, plus random policies/sequences over all 16 error kinds and huge hints; env: from_env on string pools around every parser boundary; cdn: status scripts against a loopback mock; pu/f64: str::parse::<u32|u64|f64> on sign x digit-string pools at every overflow step and on the cross product sign x int x frac x exponent x suffix plus inf/nan spellings; sleep: tokio::time::sleep under the paused clock at ms boundaries, around the 30-year clamp (up to 1000 years) and around Instant overflow. non-trivial = first outcome is an error (the loop took a retry/stop decision) / at least one variable set / any cdn case; distinct = canonical request text without observations".into();
     s.extra.insert("cap_ns".into(), serde_json::json!(CAP_NS.to_string()));
     let mut rng = Rng::new(args.seed);
     let mut rt = new_rt();
@@ -972,6 +1105,73 @@ fn main() {
                     s.tally("exec.policy-from-env");
                 }
             }
+        }
+    }
+
+    // ---- the library parsers behind from_env (u32 / u64 / f64 grammar), every boundary
+    {
+        let mut pool: Vec<String> = vec![];
+        for base in ["", "0", "1", "9", "10", "007", "4294967295", "4294967296", "4294967294", "4294967300", "42949672950", "42949672960",
+            "429496729", "18446744073709551615", "18446744073709551616", "18446744073709551614", "18446744073709551620",
+            "184467440737095516150", "184467440737095516160", "1844674407370955161", "99999999999999999999", "340282366920938463463374607431768211456",
+            "00000000000000000000000000000001", "000000000000000000000000000004294967296", "1e3", "1.5", "0x10", "१२", "1२", "abc", "1_000", "1 ", " 1", "1\n", "\t1", "1a", "a1", "٣"] {
+            for pre in ["", "+", "-", "++", "+-", "-+", " +", "+ "] {
+                pool.push(format!("{pre}{base}"));
+            }
+        }
+        let n = if args.thorough() { 4000 } else { 600 };
+        for _ in 0..n {
+            let len = rng.range(1, 24) as usize;
+            let mut t = String::new();
+            if rng.chance(1, 5) { t.push('+'); }
+            if rng.chance(1, 3) { for _ in 0..rng.below(6) { t.push('0'); } }
+            for _ in 0..len { t.push((b'0' + rng.below(10) as u8) as char); }
+            if rng.chance(1, 12) { t.insert(rng.below(t.len() as u64 + 1) as usize, *rng.pick(&['-', ' ', 'e', '.', '_', '+'])); }
+            pool.push(t);
+        }
+        for v in &pool {
+            do_pu(&mut s, 32, v);
+            do_pu(&mut s, 64, v);
+        }
+        let words = ["inf", "INF", "Inf", "iNf", "infinity", "INFINITY", "InFiNiTy", "infinit", "infinityy", "infinit y", "nan", "NAN", "NaN", "nAn", "nane", "na", "n", "in",
+            "ınf", "ℕaN", "nan ", " nan", "i", "infe5", "inf.0", "1inf", "nan0", "١", "٣.٥", "0x1p3", "1f", "1.5f64", "1_0", "1,5", "½", "\u{ff11}"];
+        let mut fpool: Vec<String> = vec![];
+        for sign in ["", "+", "-", "++", "+-", "--"] {
+            for w in words { fpool.push(format!("{sign}{w}")); }
+            for int in ["", "0", "12", "007", "18446744073709551616"] {
+                for frac in ["", ".", ".5", ".50", "..", ".5.", ". 5"] {
+                    for exp in ["", "e5", "E5", "e+5", "e-5", "e", "E", "e+", "E-", "e5.", "e5e5", "e 5", "e+-5", "e999", "e-999", "e00000000000000000000005", "x5"] {
+                        for suf in ["", " ", "f"] {
+                            if !args.thorough() && !suf.is_empty() && !(exp.is_empty() || exp == "e5") { continue; }
+                            fpool.push(format!("{sign}{int}{frac}{exp}{suf}"));
+                        }
+                    }
+                }
+            }
+        }
+        fpool.sort();
+        fpool.dedup();
+        for v in &fpool {
+            do_f64(&mut s, v);
+        }
+    }
+
+    // ---- tokio's timer as the observer: ms rounding and the 30-year far-future clamp
+    {
+        let mut rt2 = new_rt();
+        let year = 86_400 * 365 * NS;
+        let mut ds: Vec<u128> = vec![0, 1, 999_999, MS, MS + 1, 1_500_000, 2 * MS - 1, NS, 10_000_000 * NS, year, CAP_NS - MS, CAP_NS - MS + 1, CAP_NS - 1, CAP_NS, CAP_NS + 1, CAP_NS + MS,
+            2 * CAP_NS, 100 * year, 1000 * year, (i64::MAX as u128) * NS, (i64::MAX as u128 + 1) * NS, (1u128 << 63) * NS + 5, (u64::MAX as u128 - 1) * NS, (u64::MAX as u128) * NS, DUR_MAX_NS];
+        for _ in 0..(if args.thorough() { 300 } else { 40 }) {
+            ds.push(match rng.below(4) {
+                0 => rng.below(5_000_000_000) as u128,
+                1 => rng.below(1_000_000) as u128 * MS + rng.below(3) as u128,
+                2 => CAP_NS - rng.below(3 * MS as u64) as u128 + rng.below(3 * MS as u64) as u128,
+                _ => (i64::MAX as u128) * NS + rng.below(1 << 40) as u128 * NS,
+            });
+        }
+        for d in ds {
+            do_sleep(&mut s, &mut rt2, d);
         }
     }
 
